@@ -74,6 +74,18 @@ Theorem C17_data_files_respect_the_size_limit :
 Proof. exact EngineLimit.limit_from_empty. Qed.
 Print Assumptions C17_data_files_respect_the_size_limit.
 
+(* ... and across restarts: every history of the same operations (no Merge) and of restarts that reopen under any
+   configuration whose DataFileSize is at least the one before (a restart that lowers the limit may find older files
+   above it): every data file respects the limit of the configuration the database currently runs with, or holds a
+   single record (plus a sealing record). *)
+Theorem C17_data_files_respect_the_size_limit_across_restarts :
+  forall c ops d0 k0 e0 d k rs evs,
+  db_open c empty_disk = (OpenOk d0 k0, e0) -> EngineLimit.ops_small_r (c_fsize c) ops -> run (d0, k0) ops = ((d, k), rs, evs) ->
+  (lf_size (d_active d) <= c_fsize (d_cfg d) \/ EngineLimit.single (d_active d)) /\
+  (forall i f, In (i, f) (d_older d) -> lf_size f <= c_fsize (d_cfg d) \/ EngineLimit.single f).
+Proof. exact EngineLimit.limit_from_empty_with_restarts. Qed.
+Print Assumptions C17_data_files_respect_the_size_limit_across_restarts.
+
 (* the estimate covers the growth of the file, for every writer position and every record *)
 Theorem C17_estimate_covers_every_append :
   forall io nm fid f r f' p evs, EngineLimit.rec_small r -> lf_append io nm fid f r = (f', p, evs) ->
